@@ -22,7 +22,7 @@ hc = os.path.join(HERE, "tools", "hook_commits.txt")
 if os.path.exists(hc):
     hook_commits = [l.split()[0] for l in open(hc) if l.strip()]
 
-BASE_OFF = ("for m in . cmd/atlas internal/integration; do (cd /repo/$m && GOFLAGS=-mod=mod GOPROXY=off "
+BASE_OFF = ("for m in . cmd/atlas internal/integration; do (cd /repo/$m && GIT_CONFIG_GLOBAL=/dev/null GOFLAGS=-mod=mod GOPROXY=off "
             "go test -vet=off -count=1 -timeout 25m ./...) || exit 1; done")
 m = {
     "version": 1,
